@@ -2,11 +2,15 @@
 from __future__ import annotations
 
 from datetime import datetime
+from decimal import Context
 
 import construct  # type: ignore
 
 from han import cosem, obis_map
 from han.obis import Obis
+
+# Registers are scaled exactly (at most 10 digits times a power of ten), whatever decimal context the calling thread has set.
+_EXACT = Context(prec=28)
 
 Element: construct.Struct = construct.Struct(
     construct.Const(
@@ -35,7 +39,9 @@ Element: construct.Struct = construct.Struct(
             "scaler_unit" / cosem.ScalerUnitField,
             "value"
             / construct.Computed(
-                construct.this.unscaled_value * construct.this.scaler_unit.scaler.scale
+                lambda ctx: _EXACT.multiply(
+                    ctx.unscaled_value, ctx.scaler_unit.scaler.scale
+                )
             ),
         ),
     ),
